@@ -42,7 +42,8 @@ def discharge(pc, goal, timeout_ms=10000, use_cvc5=True, want_model=True):
     t0 = time.time()
     s = z3.Solver()
     s.set("timeout", timeout_ms)
-    s.add(*pc)
+    from .slicing import relevant
+    s.add(*relevant(pc, [goal]))
     s.add(z3.Not(goal))
     r = s.check()
     dt = time.time() - t0
@@ -426,6 +427,9 @@ def load_spec_env(eng, repo, modules):
         if not m:
             continue
         mi = repo.module(m)
+        eng.spec_module_names.add(m)
+        if "OPAQUE_IN_CODEC" in mi.constants:
+            eng.opaque_spec |= set(ast.literal_eval(mi.constants["OPAQUE_IN_CODEC"]))
         for name, fn in mi.functions.items():
             eng.spec_env[name] = FuncV(m, fn, None, None, None)
         for name in mi.constants:
